@@ -391,8 +391,10 @@ PLAN["C11"] = {
     "verus": [],
     "kani": [{"tiers": Q, "jobs": 2, "timeout": 900, "harnesses": K_SUSPEND_THREADS},
              {"tiers": T, "jobs": 2, "timeout": 5400, "mem_gb": 24, "harnesses": K_GENERATE}],
-    "native": [{"stem": "minidump_writer", "filter": "", "tiers": Q, "tests": {
-        "bprime_soft_error_stream_is_wellformed_json": H("B'", "write_soft_errors", "every subset of 6 representative soft errors (64)")}}],
+    "native": [{"stem": "minidump_writer", "filter": "bprime_soft", "tiers": Q, "tests": {
+        "bprime_soft_error_stream_is_wellformed_json": H("B'", "write_soft_errors", "every subset of 6 representative soft errors (64)")}},
+               {"stem": "systeminfo_stream", "filter": "c11", "tiers": Q, "tests": {
+        "c11_cpu_information_failure_is_soft": H("B'", "systeminfo_stream::write with the CpuInfoFileOpen fail point", "one failure")}}],
     "trusted": ["serde_json / error-graph serialisation beyond the 64 enumerated lists",
                 "PtraceDumper::init: the harness vk_init_best_effort_steps (kani/proofs/ptrace_dumper.rs) exhausts 30 GB in CBMC (error-list drop glue) and is not part of any tier: init's four best-effort steps are NOT decided"],
     "samples": ["vk_generate_dump_control_flow: SOFT_ERRORS_SEEN == FAILED_BEST_EFFORT && ZERO_ENTRIES >= FAILED_BEST_EFFORT"],
@@ -411,10 +413,12 @@ PLAN["C18"] = {
         "bprime_direct_auxv_values_take_precedence": H("B'", "AuxvDumpInfo::try_filling_missing_info", "16 subsets of supplied keys x 4 keys")}},
                {"stem": "dso_debug", "filter": "c18", "tiers": Q, "tests": {
         "c18_linker_list_is_reproduced": H("B'", "dso_debug::write_dso_debug_stream", "one well-formed fake target: 2 program headers, DT_DEBUG, 2 link maps")}},
+               {"stem": "systeminfo_stream", "filter": "c18", "tiers": Q, "tests": {
+        "c18_system_information_names_this_machine": H("B'", "systeminfo_stream::write", "this machine's /proc/cpuinfo")}},
                {"stem": "minidump_writer", "filter": "bprime_os", "tiers": Q, "tests": {
         "bprime_os_information_streams_mirror_a_stopped_child": H("B'", "write_file, memory_info_list_stream::write, handle_data_stream::write",
             "one forked, SIGSTOPped child: 6 /proc files, every maps line, every open descriptor (incl. a non-UTF-8 file name and a pipe)")}}],
-    "trusted": ["system information (uname / cpuinfo parsing) is not decided",
+    "trusted": ["system information is compared with an independent parse of this machine's /proc/cpuinfo only",
                 "the /proc comparisons are made on one concrete stopped child, not for every target"],
     "samples": ["get_memory_protection(rw-) == PAGE_READWRITE"],
 }
